@@ -53,7 +53,11 @@ CONSTANTS
   EvalQE(_, _),             \* query id x event -> "TRUE" | "FALSE" | "ERR"
   Weak_ErrorAbortsPublish,  \* send returns at the first erroring query (the code before the S5 fix)
   Weak_BlockOnFullBuffer,   \* send blocks on a full buffered subscription instead of cancelling it
-  Weak_UnsubLeavesQuery     \* remove(ErrUnsubscribed) cancels but leaves the entry in state.subscriptions
+  Weak_UnsubLeavesQuery,    \* remove(ErrUnsubscribed) cancels but leaves the entry in state.subscriptions
+  Weak_DoubleRemoveReleasesForeignRef
+                            \* remove for a client that is NOT (any longer) in the query's table still does
+                            \* refCount-- and, at 0, deletes the table with the live subscriptions of OTHER
+                            \* clients in it (reachable: dropped with ErrOutOfCapacity, then Unsubscribe)
 
 Queries == 1..NQ
 Nil == "nil"
@@ -127,7 +131,16 @@ Add(S, c, q, sid) ==
 \* state.remove(clientID, qStr, reason): cancel, drop the entry, drop the query when unused
 Remove(S, c, q, reason) ==
   LET sid == S.srv[<<q, c>>] IN
-  IF sid = 0 THEN S
+  IF sid = 0 THEN
+       \* "unknown query" / "client not subscribed to this query": nothing happens.  This is the
+       \* case of the Unsubscribe a client sends after the LOOP dropped it with ErrOutOfCapacity
+       \* (S.reg still lists the query, S.srv does not: the two legitimately disagree).
+       IF Weak_DoubleRemoveReleasesForeignRef /\ S.refc[q] > 0
+       THEN IF S.refc[q] = 1
+            THEN [S EXCEPT !.refc[q] = 0,
+                           !.srv = [p \in Queries \X Clients |-> IF p[1] = q THEN 0 ELSE S.srv[p]]]
+            ELSE [S EXCEPT !.refc[q] = @ - 1]
+       ELSE S
   ELSE IF Weak_UnsubLeavesQuery /\ reason = "Unsubscribed"
        THEN [S EXCEPT !.subs[sid].cancelled = TRUE, !.subs[sid].err = reason]
        ELSE [S EXCEPT !.subs[sid].cancelled = TRUE, !.subs[sid].err = reason, !.subs[sid].st = "done",
@@ -153,8 +166,9 @@ RemoveAllNil(S) ==
 \* satisfied must get it (ghost)
 Expect(S, e, m) ==
   [S EXCEPT !.subs = [i \in DOMAIN S.subs |->
-      IF S.subs[i].st = "live" /\ ~S.subs[i].cancelled /\ S.srv[<<S.subs[i].q, S.subs[i].c>>] = i
-         /\ EvalQE(S.subs[i].q, e) = "TRUE"
+      \* (deliberately NOT "is in S.srv": a subscription the loop lost track of without
+      \*  cancelling it is still owed every matching publication)
+      IF S.subs[i].st = "live" /\ ~S.subs[i].cancelled /\ EvalQE(S.subs[i].q, e) = "TRUE"
       THEN [S.subs[i] EXCEPT !.exp = Append(@, m)] ELSE S.subs[i]]]
 
 FinishIfDone(S) ==
